@@ -3,7 +3,11 @@ package c08
 
 import (
 	"bytes"
+	"context"
+	"encoding/json"
 	"fmt"
+	"io"
+	"net"
 	"os"
 	"path/filepath"
 	"strings"
@@ -19,8 +23,108 @@ import (
 func init() {
 	core.Register(&core.Simple{
 		Id: "C08", Lvl: "exploration", Quick: 640, Thorough: 20000, PerBatch: 160, Width: 160, Timeout: 1800,
-		RuleText: "each case downloads one generated file (sizes 0,1,2,511,512,513,32767,32768,32769,65536,1 MiB and random, thorough up to 16 MiB; names over ASCII and Mac-Roman high bytes, in the root or a sub-folder; with/without stored info and resource forks; in a sixth of the cases a stale '<name>.incomplete' of an interrupted upload sits next to the complete file) in one mode: full (a few of them read by a peer with a 32 KiB window that stalls for 11 s mid-transfer), resume at k in {0,1,size/2,size-1,size,random}, or preview (the option sent as a 2-byte or a 4-byte integer); the request goes through the real connection loop, the transfer through the real handleFileTransfer; a reference client reads the whole stream until the handler returns and a reference parser checks header consistency, exactly file[k:], resource fork framing, and the reply's size fields. distinct = (size class, mode, forks, name class); non-trivial = size > 0",
+		RuleText: "each case downloads one generated file (sizes 0,1,2,511,512,513,32767,32768,32769,65536,1 MiB and random, thorough up to 16 MiB; names over ASCII and Mac-Roman high bytes, in the root or a sub-folder (an eighth of the requests name the folder by a path of 250-300 items); with/without stored info and resource forks; in a sixth of the cases a stale '<name>.incomplete' of an interrupted upload sits next to the complete file) in one mode: full (a few of them read by a peer with a 32 KiB window that stalls for 11 s mid-transfer), resume at k in {0,1,size/2,size-1,size,random}, or preview (the option sent as a 2-byte or a 4-byte integer); the request goes through the real connection loop, the transfer through the real handleFileTransfer; a reference client reads the whole stream until the handler returns and a reference parser checks header consistency, exactly file[k:], resource fork framing, and the reply's size fields. a TCP batch runs the real ServeFileTransfers accept loop with two overlapping downloads (a short one accepted first, a long one read slowly that outlives the first handler). distinct = (size class, mode, forks, name class); non-trivial = size > 0",
 		Case:     runCase,
+		Extra: func(tier string, seed int64) []core.Batch {
+			n := 3
+			if tier == "thorough" {
+				n = 40
+			}
+			a, _ := json.Marshal(map[string]int{"runs": n})
+			return []core.Batch{{Name: "tcp-overlap", Args: a, Timeout: 1500}}
+		},
+		RunExtra: runTCPOverlap,
+	})
+}
+
+// runTCPOverlap drives the real accept loop of the transfer port (ServeFileTransfers) over loopback TCP: a short
+// download is accepted first, a long one (read slowly by its peer) is accepted while the first handler is still
+// winding down (it returns 3 s after its last byte) and is still running when that happens. Both must deliver exactly
+// their file.
+func runTCPOverlap(b core.Batch, em *core.Emitter) {
+	var a struct {
+		Runs int `json:"runs"`
+	}
+	json.Unmarshal(b.Args, &a)
+	core.Parallel(a.Runs, 8, func(run int) {
+		id := fmt.Sprintf("C08/tcp-overlap/%d", run)
+		core.SafeCase(em, id, func() {
+			em.Begin(id, nil)
+			r := core.NewRand(b.Seed, uint64(run), 0x08)
+			small, large := r.Bytes(1000+r.Intn(5000)), r.Bytes(6<<20+r.Intn(1<<20))
+			srv, err := fixture.New(fixture.Options{Files: func(root string) {
+				os.WriteFile(filepath.Join(root, "small.bin"), small, 0644)
+				os.WriteFile(filepath.Join(root, "large.bin"), large, 0644)
+			}})
+			if err != nil {
+				em.Emit(core.Result{Case: id, Verdict: core.Inconclusive, Msg: err.Error()})
+				return
+			}
+			defer srv.Close()
+			ln, err := net.Listen("tcp", "127.0.0.1:0")
+			if err != nil {
+				em.Emit(core.Result{Case: id, Verdict: core.Inconclusive, Msg: err.Error()})
+				return
+			}
+			defer ln.Close()
+			ctx, cancel := context.WithCancel(context.Background())
+			defer cancel()
+			go srv.S.ServeFileTransfers(ctx, ln)
+			cl, err := refclient.LoginAs(srv, "10.8.9.1:1", "admin", "", "Overlap")
+			if err != nil {
+				em.Emit(core.Result{Case: id, Verdict: core.Inconclusive, Msg: err.Error()})
+				return
+			}
+			fetch := func(name string, pauseAfterHeader time.Duration) ([]byte, error) {
+				d := xfer.RequestDownload(cl, []byte(name), nil, -1, false)
+				if !d.OK {
+					return nil, fmt.Errorf("download request refused: %v", d.Reply)
+				}
+				conn, err := net.Dial("tcp", ln.Addr().String())
+				if err != nil {
+					return nil, err
+				}
+				defer conn.Close()
+				conn.SetDeadline(time.Now().Add(60 * time.Second))
+				if _, err := conn.Write(rc.Preamble(d.Ref, 0)); err != nil {
+					return nil, err
+				}
+				buf := make([]byte, 200)
+				if _, err := io.ReadFull(conn, buf); err != nil {
+					return nil, fmt.Errorf("reading the start of the stream: %w", err)
+				}
+				time.Sleep(pauseAfterHeader)
+				rest, _ := io.ReadAll(conn)
+				return append(buf, rest...), nil
+			}
+			type got struct {
+				b   []byte
+				err error
+			}
+			ca, cb := make(chan got, 1), make(chan got, 1)
+			go func() { x, err := fetch("small.bin", 0); ca <- got{x, err} }()
+			time.Sleep(300 * time.Millisecond)                                                     // the short transfer is accepted first ...
+			go func() { x, err := fetch("large.bin", 4500*time.Millisecond); cb <- got{x, err} }() // ... the long one is read slowly and outlives it
+			ga, gb := <-ca, <-cb
+			res := core.Result{Case: id, Class: "tcp-overlap", Verdict: core.Held, Obs: map[string]int{"overlapping_tcp_downloads": 2},
+				Sample: map[string]any{"short_file_bytes": len(small), "long_file_bytes": len(large)}}
+			for _, x := range []struct {
+				name string
+				g    got
+				want []byte
+			}{{"short", ga, small}, {"long", gb, large}} {
+				if x.g.err != nil {
+					res.Verdict, res.Msg = core.Inconclusive, x.name+" download: "+x.g.err.Error()
+					break
+				}
+				if !bytes.Contains(x.g.b, x.want) {
+					res.Verdict, res.Key = core.Violated, "C08/tcp-overlap/data"
+					res.Msg = fmt.Sprintf("two downloads overlapped on the transfer port (the short one accepted first, the long one read slowly): the %s download delivered %d bytes which do not contain the file's %d bytes", x.name, len(x.g.b), len(x.want))
+					break
+				}
+			}
+			em.Emit(res)
+		})
 	})
 }
 
@@ -169,7 +273,18 @@ func runCase(c *core.Case) {
 	if widePreview {
 		c.Count("preview_option_as_4_bytes", 1)
 	}
-	d := xfer.RequestDownloadEnc(cl, name, sub, k, mode == "preview", widePreview)
+	reqPath := sub
+	if r.Chance(1, 8) {
+		// the same folder named by a path of 250-300 items: "." items in front of the real ones
+		pad := 250 + r.Intn(51)
+		reqPath = nil
+		for i := 0; i < pad; i++ {
+			reqPath = append(reqPath, []byte("."))
+		}
+		reqPath = append(reqPath, sub...)
+		c.Count("paths_of_250_to_300_items", 1)
+	}
+	d := xfer.RequestDownloadEnc(cl, name, reqPath, k, mode == "preview", widePreview)
 	if !d.OK {
 		c.Fail("C08/request-refused", "download request for an existing file refused: %v", d.Reply)
 		return
